@@ -919,9 +919,58 @@ class Token(str):
         return self
 
 
+class CharPiece(str):
+    """A run of characters from {digit, '-', '.'} between separators of a
+    command-line argument: the *pattern* (which character is what) is concrete,
+    the digits are symbolic integers 0..9.  float() of it follows Python: the
+    decimal value for a well-formed numeral, ValueError otherwise."""
+    pattern = ""
+    digits = ()
+
+    def __new__(cls, pattern, digits):
+        t = str.__new__(cls, pattern.replace("d", "0"))
+        t.pattern = pattern
+        t.digits = list(digits)
+        return t
+
+    def split(self, sep=None, maxsplit=-1):
+        return [self]
+
+    def well_formed(self):
+        import re
+        return re.fullmatch(r"-?(d+(\.d*)?|\.d+)", self.pattern) is not None
+
+    def value(self):
+        p = self.pattern
+        neg = p.startswith("-")
+        body = p[1:] if neg else p
+        ipart, _, fpart = body.partition(".")
+        ds = list(self.digits)
+        total = None
+        k = 0
+        terms = []
+        for i in range(len(ipart)):
+            terms.append((ds[k], 10 ** (len(ipart) - 1 - i)))
+            k += 1
+        for j in range(len(fpart)):
+            terms.append((ds[k], fractions.Fraction(1, 10 ** (j + 1))))
+            k += 1
+        val = z3.RealVal(0)
+        for d, w in terms:
+            de = d.e if isinstance(d, SymInt) else z3.IntVal(int(d))
+            val = val + z3.ToReal(de) * real_const(w)
+        if neg:
+            val = -val
+        return SymFloat(val)
+
+
 def sym_float(x=0.0):
     """Shadow of builtin float() inside verif modules."""
     import numpy as np
+    if isinstance(x, CharPiece):
+        if not x.well_formed():
+            raise ValueError("could not convert string to float: %r" % str(x))
+        return x.value()
     if isinstance(x, Token):
         if bool(x.bad):
             raise ValueError("could not convert string to float: %r" % str(x))
@@ -1037,8 +1086,8 @@ class SymArg(str):
             raise Unsupported("SymArg.split without an explicit separator")
         groups = [[]]
         for p in self.parts:
-            if isinstance(p, Token) or p != sep:
-                if not isinstance(p, Token) and sep in p:
+            if isinstance(p, (Token, CharPiece)) or p != sep:
+                if not isinstance(p, (Token, CharPiece)) and sep in p:
                     raise Unsupported("separator inside a literal part")
                 groups[-1].append(p)
             else:
